@@ -8,7 +8,7 @@ from symv.dense import describe, embed, phases_of, struct_sig
 
 META = {
     "level": "exploration",
-    "level_text": "The full spectrum is obtained independently (numpy SVD of every input block); the truncation rule of the selected mode (absolute, relative, cumulative weight squared or not, absolute or relative) intersected with the bond limit is evaluated by the harness and compared with what svd_truncated kept: per-charge counts and values, min kept >= max discarded, per-charge largest; over a ladder of increasing cutoffs (a recorded history per matrix and mode) the kept count must never increase; without cutoff the bond equals the limit and each charge keeps its largest values; ||x - U S V+||^2 equals the discarded squared weight; all absorb options give the product U diag(s) V+; factors pass the C01 audit and their bond tables match the block shapes. Values within a relative 1e-9 band of a decision threshold make the case inconclusive (counted, not judged). Later additions: decisions taken on the library's own untruncated spectrum (bit-identical values) with a 2e-14 band, spectra with exact repeats and with values a few 1e-13 apart, 4-6 charges, data rescaled by 1e-100 .. 1e100, exact ties cutting through a count-defined threshold are inconclusive, the renorm option must refuse or renormalise. Round 9: spectra of 260-520 values (geometric over 3-8 decades) with cutoff and bond limit combined; integer-typed and null-row blocks.",
+    "level_text": "The full spectrum is obtained independently (numpy SVD of every input block); the truncation rule of the selected mode (absolute, relative, cumulative weight squared or not, absolute or relative) intersected with the bond limit is evaluated by the harness and compared with what svd_truncated kept: per-charge counts and values, min kept >= max discarded, per-charge largest; over a ladder of increasing cutoffs (a recorded history per matrix and mode) the kept count must never increase; without cutoff the bond equals the limit and each charge keeps its largest values; ||x - U S V+||^2 equals the discarded squared weight; all absorb options give the product U diag(s) V+; factors pass the C01 audit and their bond tables match the block shapes. Values within a relative 1e-9 band of a decision threshold make the case inconclusive (counted, not judged). Later additions: decisions taken on the library's own untruncated spectrum (bit-identical values) with a 2e-14 band, spectra with exact repeats and with values a few 1e-13 apart, 4-6 charges, data rescaled by 1e-100 .. 1e100, exact ties cutting through a count-defined threshold are inconclusive, the renorm option must refuse or renormalise. Round 9: spectra of 260-520 values (geometric over 3-8 decades) with cutoff and bond limit combined; integer-typed and null-row blocks. Round 10: one ndarray object stored under several sectors.",
     "technique": "runtime monitoring: independent rule oracle on an independently computed spectrum + offline monotonicity checker over a cutoff ladder",
     "rule": (
         "one evaluation = one svd_truncated call (function or autoray form) judged against the rule oracle. Per matrix: 6 modes x a ladder of cutoffs from 1e-12 through spectrum quantiles to "
